@@ -341,6 +341,9 @@ def write_evidence(prop, tier, seed, wall, groups, results, verdicts, violations
                                 "checks": h.get("n_checks"), "covers_satisfied": h.get("covers_satisfied"),
                                 "cover_witnesses": [c["description"] for c in h.get("cover_details", [])][:8],
                                 "solver_s": h.get("solver_s"), "symex_s": h.get("symex_s")})
+    if not samples:
+        samples = [{"harness": None, "verdict": "inconclusive", "note": json.dumps(i)[:300]} for i in inconclusive[:5]] or [
+            {"harness": None, "verdict": "nothing ran"}]
     obligations = sum(len(r["harnesses"]) for r in results)
     ev = {
         "property_id": prop, "tier": tier, "seed": seed, "level": "model_checking",
